@@ -1,11 +1,13 @@
 //@ unit prime_residue
 //@ props C18
+//@@ same-trait row_echelon :: Array2d Entry
 #![feature(panic_internals)]
 #![feature(sized_hierarchy)]
 use vstd::prelude::*;
 use vstd::arithmetic::div_mod::*;
 use vstd::std_specs::ops::*;
-use std::ops::{Add, Div, Mul, Neg, Sub};
+use std::ops::{Add, Div, Mul, Neg, Sub, Index, IndexMut};
+use vstd::std_specs::core::*;
 verus! {
 // assert_eq! expands to a call of core::panicking::assert_failed: reaching it is a proof obligation (requires false)
 #[verifier::external_type_specification]
@@ -560,6 +562,163 @@ impl<const P: i64> Neg for &PrimeResidueClass<P> {
     //@ end
 }
 
+// =====================================================================================================
+// PrimeResidueClass as matrix entry (src/geometry/modular_solver.rs: `impl Entry for PrimeResidueClass<P>`), against the trait-level
+// contracts of unit row_echelon: the declarations of `Array2d` and `Entry` below are textually those of contracts/row_echelon.rs
+// (checked on every run: `//@@ same-trait`), where RowEchelonVecMatrix::new / RowEchelonMatrix::new are proved to produce a row
+// echelon form for EVERY Entry type that meets them.  Here the two methods are proved to meet them for the prime field.
+// =====================================================================================================
+pub trait Array2d<T>:
+    Sized + Index<(usize, usize), Output=T> + IndexMut<(usize, usize), Output=T>
+{
+    spec fn wf(&self) -> bool;
+    spec fn srows(&self) -> int;
+    spec fn scols(&self) -> int;
+    spec fn at(&self, i: int, j: int) -> T;
+    fn nr_rows(&self) -> (r: usize) requires self.wf() ensures r == self.srows();
+    fn nr_columns(&self) -> (r: usize) requires self.wf() ensures r == self.scols();
+    // law tying the index precondition (the assert!s of the Index impl) to the shape; every implementation proves it
+    proof fn index_law(&self, i: usize, j: usize)
+        requires self.wf()
+        ensures IndexSpec::index_req(self, &(i, j)) <==> (i < self.srows() && j < self.scols()),
+            0 <= self.srows() <= usize::MAX, 0 <= self.scols() <= usize::MAX;
+    // law: whatever `a[(i, j)]` returns (the postcondition of the implementation's `index`) is the abstract entry
+    proof fn read_law(&self)
+        requires self.wf()
+        ensures forall|i: usize, j: usize, r: &T|
+            #[trigger] call_ensures(<Self as Index<(usize, usize)>>::index, (self, (i, j)), r) && i < self.srows() && j < self.scols()
+                ==> *r == self.at(i as int, j as int);
+    // law: `a[(i, j)] = v` (the postcondition of the implementation's `index_mut`) writes exactly that entry
+    proof fn write_law()
+        ensures forall|m: &mut Self, i: usize, j: usize, r: &mut T|
+            #[trigger] call_ensures(<Self as IndexMut<(usize, usize)>>::index_mut, (m, (i, j)), r) && (*m).wf() && i < (*m).srows() && j < (*m).scols()
+                ==> mut_ref_future(m).wf() && mut_ref_future(m).srows() == (*m).srows() && mut_ref_future(m).scols() == (*m).scols()
+                    && mut_ref_future(m).at(i as int, j as int) == mut_ref_future(r)
+                    && forall|k: int, l: int| 0 <= k < (*m).srows() && 0 <= l < (*m).scols() && !(k == i && l == j)
+                        ==> #[trigger] mut_ref_future(m).at(k, l) == (*m).at(k, l);
+}
+
+pub open spec fn same_shape<T, A: Array2d<T>>(a0: A, a1: A) -> bool {
+    a1.wf() && a1.srows() == a0.srows() && a1.scols() == a0.scols()
+}
+
+// a1 is a0 with entry (i, j) replaced by v
+pub open spec fn written<T, A: Array2d<T>>(a0: A, a1: A, i: int, j: int, v: T) -> bool {
+    same_shape(a0, a1) && a1.at(i, j) == v
+    && forall|k: int, l: int| 0 <= k < a0.srows() && 0 <= l < a0.scols() && !(k == i && l == j) ==> #[trigger] a1.at(k, l) == a0.at(k, l)
+}
+
+// what `clear_col(col, row1, row2, a, _)` leaves behind: entry (row1, col) is zero, the pivot (row2, col) is still non-zero,
+// and nothing changes to the left of `col` or outside the two rows
+pub open spec fn cleared<T: Entry, A: Array2d<T>>(a0: A, a1: A, col: int, row1: int, row2: int) -> bool {
+    same_shape(a0, a1) && a1.at(row1, col).zr() && !a1.at(row2, col).zr()
+    && forall|k: int, l: int| 0 <= k < a0.srows() && 0 <= l < a0.scols() && (l < col || (k != row1 && k != row2)) ==> #[trigger] a1.at(k, l) == a0.at(k, l)
+}
+
+pub trait Entry: Sized {
+    spec fn zr(&self) -> bool;      // "is zero"
+
+    // contract every implementation has to meet (proved below for i64, in unit prime_residue for PrimeResidueClass):
+    // Some(p): p is a row at or below row0 whose entry in `col` is NOT zero;  None: the whole rest of the column is zero
+    fn pivot_row<M: Array2d<Self>>(col: usize, row0: usize, a: &M) -> (r: Option<usize>)
+        requires a.wf(), row0 < a.srows(), col < a.scols()
+        ensures r.is_some() ==> row0 <= r.unwrap() < a.srows() && !a.at(r.unwrap() as int, col as int).zr(),
+            r.is_none() ==> forall|k: int| row0 <= k < a.srows() ==> (#[trigger] a.at(k, col as int)).zr();
+    // shape preservation and zero structure; the arithmetic itself (gcdx on machine integers, BigRational, f64) is outside the verifier
+    fn clear_col<A: Array2d<Self>, B: Array2d<Self>>(
+        col: usize, row1: usize, row2: usize, a: &mut A, x: Option<&mut B>
+    )
+        requires old(a).wf(), row1 < old(a).srows(), row2 < old(a).srows(), col < old(a).scols(),
+            row1 != row2, !old(a).at(row2 as int, col as int).zr(),      // the body divides by the pivot entry
+            x.is_some() ==> old(x.unwrap()).wf() && row1 < old(x.unwrap()).srows() && row2 < old(x.unwrap()).srows(),
+        // (= `cleared(*old(a), *final(a), col, row1, row2)` below, spelled out: a trait may not mention a predicate generic over itself)
+        ensures same_shape(*old(a), *final(a)),
+            final(a).at(row1 as int, col as int).zr(), !final(a).at(row2 as int, col as int).zr(),
+            forall|k: int, l: int| 0 <= k < old(a).srows() && 0 <= l < old(a).scols() && (l < col || (k != row1 && k != row2))
+                ==> #[trigger] final(a).at(k, l) == old(a).at(k, l),
+            x.is_some() ==> same_shape(*old(x.unwrap()), *final(x.unwrap()));
+}
+
+
+impl<const P: i64> PrimeResidueClass<P> {
+    // `impl Zero for PrimeResidueClass<P>` (num_traits), emitted as inherent methods (R15)
+    //@ begin src/geometry/prime_residue_classes.rs :: impl<const P: i64> Zero for PrimeResidueClass<P> :: fn zero
+    //@ rw R16 /-> Self/-> (r: Self)/
+    fn zero() -> (r: Self)
+        ensures r.val() == 0
+    {
+        proof { domain_valid_p::<P>(); lemma_small_mod(0, P as nat); }
+        0.into()
+    }
+    //@ end
+
+    //@ begin src/geometry/prime_residue_classes.rs :: impl<const P: i64> Zero for PrimeResidueClass<P> :: fn is_zero
+    //@ rw R16 /-> bool/-> (r: bool)/
+    fn is_zero(&self) -> (r: bool)
+        ensures r == (self.val() == 0)
+    {
+        self.value == 0
+    }
+    //@ end
+}
+
+impl<const P: i64> Entry for PrimeResidueClass<P> {
+    open spec fn zr(&self) -> bool { self.val() == 0 }
+
+    //@ begin src/geometry/modular_solver.rs :: impl<const P: i64> Entry for PrimeResidueClass<P> :: fn pivot_row
+    //@ rw R16 /-> Option<usize>/-> (r: Option<usize>)/
+    fn pivot_row<M: Array2d<Self>>(col: usize, row0: usize, a: &M)
+        -> (r: Option<usize>)
+    {
+        proof { a.read_law(); }
+        for row in row0..a.nr_rows()
+            invariant a.wf(), col < a.scols(), row0 < a.srows(),
+                forall|k: int| row0 <= k < row ==> (#[trigger] a.at(k, col as int)).zr(),
+        {
+            proof { a.index_law(row, col); a.read_law(); }
+            if !a[(row, col)].is_zero() {
+                return Some(row);
+            }
+        }
+
+        None
+    }
+    //@ end
+
+    //@ begin src/geometry/modular_solver.rs :: impl<const P: i64> Entry for PrimeResidueClass<P> :: fn clear_col
+    #[verifier::loop_isolation(false)]
+    fn clear_col<A: Array2d<Self>, B: Array2d<Self>>(
+        col: usize, row1: usize, row2: usize, a: &mut A, x: Option<&mut B>
+    )
+    {
+        proof { a.index_law(row1, col); a.index_law(row2, col); a.read_law(); A::write_law(); }
+        let ghost a0 = *a;
+        let f = a[(row1, col)] / a[(row2, col)];
+        a[(row1, col)] = Self::zero();
+
+        for k in (col + 1)..a.nr_columns()
+            invariant same_shape(a0, *a), row1 < a0.srows(), row2 < a0.srows(), col < a0.scols(), row1 != row2,
+                a.at(row1 as int, col as int).zr(),
+                // only row1 changes, and only from `col` on
+                forall|i: int, l: int| 0 <= i < a0.srows() && 0 <= l < a0.scols() && (i != row1 || l < col) ==> #[trigger] a.at(i, l) == a0.at(i, l),
+        {
+            proof { a.index_law(row1, k); a.index_law(row2, k); a.read_law(); A::write_law(); }
+            a[(row1, k)] = a[(row1, k)] - a[(row2, k)] * f;
+        }
+
+        if let Some(x) = x {
+            let ghost x0 = *x;
+            for k in 0..x.nr_columns()
+                invariant same_shape(x0, *x), row1 < x0.srows(), row2 < x0.srows(),
+            {
+                proof { x.index_law(row1, k); x.index_law(row2, k); B::write_law(); }
+                x[(row1, k)] = x[(row1, k)] - x[(row2, k)] * f;
+            }
+        }
+    }
+    //@ end
+}
+
 // vacuity guards: canary_* MUST FAIL, witness_* must verify
 proof fn canary_domain_is_satisfiable<const P: i64>()
     ensures false
@@ -579,6 +738,20 @@ fn canary_inverse_contract<const P: i64>(x: PrimeResidueClass<P>)
     ensures false
 {
     let y = x.inverse();
+}
+
+fn canary_prc_clear_col_contract<const P: i64, A: Array2d<PrimeResidueClass<P>>>(a: &mut A)
+    requires old(a).wf(), old(a).srows() == 2, old(a).scols() == 2, !old(a).at(0, 0).zr()
+    ensures false
+{
+    <PrimeResidueClass<P> as Entry>::clear_col::<A, A>(0, 1, 0, a, None);
+}
+
+fn canary_prc_pivot_row_contract<const P: i64, A: Array2d<PrimeResidueClass<P>>>(a: &A)
+    requires a.wf(), a.srows() == 2, a.scols() == 2
+    ensures false
+{
+    let r = <PrimeResidueClass<P> as Entry>::pivot_row(0, 0, a);
 }
 
 fn witness_calls()
